@@ -130,7 +130,38 @@ func Load(repoDir, mirrorDir string) (*Program, error) {
 		}
 		p.ContractSource = "mirror"
 	}
+	p.expandDefaults()
 	return p, nil
+}
+
+// expandDefaults turns package-level "default-nonnil x" into a requires clause on every contracted
+// function of the package that has a pointer (or map) parameter named x.
+func (p *Program) expandDefaults() {
+	for key, c := range p.Contracts.Funcs {
+		names := p.Contracts.DefaultNonNil[c.Pkg]
+		if len(names) == 0 {
+			continue
+		}
+		fn := p.Funcs[key]
+		if fn == nil {
+			continue
+		}
+		for _, par := range fn.Params {
+			for _, n := range names {
+				if par.Name() != n {
+					continue
+				}
+				if _, ok := par.Type().Underlying().(*types.Pointer); !ok {
+					continue
+				}
+				if fn.Signature.Recv() != nil && par == fn.Params[0] {
+					continue
+				}
+				x, _ := ParseSpecExpr(n + " != nil")
+				c.Requires = append(c.Requires, &Clause{Kind: "requires", Tag: "nonnil-" + n, Src: n + " != nil", Expr: x, File: c.File, Line: c.Line})
+			}
+		}
+	}
 }
 
 // loadContracts reads every *_verif.go file under dir; package path is derived from the directory
